@@ -350,7 +350,7 @@ def oracle(ctx):
     # the caller catches it): nothing allocated by the failed call stays reachable, in particular not through the user's own
     # long-lived module (round-3 seed C19/8: the module kept the copy of its parameter installed for the backward pass)
     for w in WL.WORKLOADS:
-        if w.name not in (("rootfinder", "equilibrium", "solve_ivp", "quad") if ctx.thorough() else ("rootfinder", "solve_ivp")):
+        if w.name not in (("rootfinder", "equilibrium", "solve_ivp", "quad") if ctx.thorough() else ("rootfinder",)):
             continue
         for kind in (("nn", "em_derived", "explicit_plus_object") if ctx.thorough() else ("nn", "em_derived")):
             t1, t2 = WL.leaves(0)
